@@ -53,6 +53,7 @@ class AE(object):
         self.move = (None, 0, [])
         self.sub = None
         self.commit = None
+        self.sub_fault = None         # exception raised when a further association is requested (unreachable, refused)
 
     def _out(self):
         if self.fail:
@@ -89,6 +90,8 @@ class AE(object):
     @contextlib.contextmanager
     def request_association(self, remote_ae):
         self.calls.append(('assoc', remote_ae))
+        if self.sub_fault is not None:
+            raise self.sub_fault
         yield self.sub
 
 
@@ -193,6 +196,63 @@ def find_responses(mid: int, h: int, k: int, w0: bool, w1: bool, w2: bool) -> bo
     return ok
 
 
+@cond(bounds='C-FIND provider serving TWO associations of one entity (the acceptor threads interleave at the granularity of '
+             'the application handler): association A\'s query yields 3 matches; before its match number `at` (symbolic '
+             '0..3) is produced, association B\'s complete query (own message id, own context id, 1 match) is served; '
+             'message ids symbolic. Every response of A still answers A\'s request on A\'s context, B\'s likewise; '
+             'provider-thread schedule eager / lagging (symbolic)', timeout=240)
+def find_responses_two_associations(mid_a: int, mid_b: int, h: int, at: int, lazy: bool) -> bool:
+    """
+    pre: 0 <= mid_a <= 65535 and 0 <= mid_b <= 65535 and mid_a != mid_b and 0 <= h <= 60 and 0 <= at <= 3
+    post: _
+    """
+    at = pick(at, 0, 3)
+    sop = str(sopclass.PATIENT_ROOT_FIND_SOP_CLASS)
+    cid_a, cid_b = _cid(h), _cid(h + 2)
+
+    class TwoAE(AE):
+        def on_receive_find(self, ctx, ds):
+            if ctx.id == cid_b:
+                return iter([(_match(7), statuses.Status(0xFF00, dm.CFindRSPMessage))])
+            return self.gen_a()
+
+        def gen_a(self):
+            for i in range(3):
+                if i == at:
+                    self.serve_b()
+                yield (_match(i), statuses.Status(0xFF00, dm.CFindRSPMessage))
+            if at == 3:
+                self.serve_b()
+
+        def serve_b(self):
+            rq_b = dm.CFindRQMessage()
+            rq_b.message_id = mid_b
+            rq_b.sop_class_uid = sop
+            rq_b.priority = 0
+            rq_b.data_set = QUERY
+            sopclass.qr_find_scp(self.asce_b, ctx_of(cid_b, sop), rq_b)
+    ae = TwoAE(0, False)
+    asce_a, ae.asce_b = RecAssoc(ae, lazy=lazy), RecAssoc(ae, lazy=lazy)
+    rq = dm.CFindRQMessage()
+    rq.message_id = mid_a
+    rq.sop_class_uid = sop
+    rq.priority = 0
+    rq.data_set = QUERY
+    sopclass.qr_find_scp(asce_a, ctx_of(cid_a, sop), rq)
+    sa, sb = asce_a.sent(), ae.asce_b.sent()
+    ok = len(sa) == 4 and len(sb) == 2
+    for i, s_ in enumerate(sa):
+        ok = ok and correlated(s_, cid_a, 0x8020, mid_a, sop)
+        ok = ok and (s_.status == 0xFF00 and s_.data == dsutils.encode(_match(i), True, True) if i < 3
+                     else s_.status == 0 and s_.data is None)
+    for i, s_ in enumerate(sb):
+        ok = ok and correlated(s_, cid_b, 0x8020, mid_b, sop)
+        ok = ok and (s_.status == 0xFF00 and s_.data == dsutils.encode(_match(7), True, True) if i < 1
+                     else s_.status == 0 and s_.data is None)
+    deep(ok and at == 2 and lazy)
+    return ok
+
+
 class SubAssoc(object):
     """sub-association to the move destination"""
 
@@ -267,21 +327,30 @@ class ReportAssoc(RecAssoc):
 
 @cond(bounds='storage commitment N-ACTION provider: message id, context id symbolic, handler accepts / raises '
              'EventHandlingError (symbolic), result lists success-only / failure-only / mixed / both empty (sizes 0..2 '
-             'symbolic): the N-ACTION-RSP, and the N-EVENT-REPORT-RQ sent on the new association', timeout=240)
-def n_action_response(mid: int, h: int, fail: bool, ns: int, nf: int) -> bool:
+             'symbolic); the association for the report works / cannot be established / never answers / is aborted (symbolic): '
+             'the N-ACTION-RSP (always), and the N-EVENT-REPORT-RQ sent on the new association', timeout=300)
+def n_action_response(mid: int, h: int, fail: bool, ns: int, nf: int, fault: int) -> bool:
     """
-    pre: 0 <= mid <= 65535 and 0 <= h <= 127 and 0 <= ns <= 2 and 0 <= nf <= 2
+    pre: 0 <= mid <= 65535 and 0 <= h <= 127 and 0 <= ns <= 2 and 0 <= nf <= 2 and 0 <= fault <= 3
     post: _
     """
-    ns, nf = pick(ns, 0, 2), pick(nf, 0, 2)
+    ns, nf, fault = pick(ns, 0, 2), pick(nf, 0, 2), pick(fault, 0, 3)
     sop = str(sopclass.STORAGE_COMMITMENT_SOP_CLASS)
     ae = AE(0, fail)
     ae.commit = ({'aet': 'PEER'}, [(SOP_A, '1.2.3.%d' % i) for i in range(ns)],
                  [(SOP_A, '1.2.9.%d' % i, 0x0110) for i in range(nf)])
     rsp_stub = dm.NEventReportRSPMessage()
     rsp_stub.status = 0
-    report = ReportAssoc(ae, script=[(rsp_stub, _cid(h))])
+    # fault in the reverse association, after the handler accepted the request: 1 = it cannot be established (refused /
+    # unreachable), 2 = the report is never answered (time-out), 3 = the receiver aborts
+    report = ReportAssoc(ae, script=[] if fault == 2 else [(rsp_stub, _cid(h))])
+    if fault == 3:
+        def aborted():
+            raise exceptions.AssociationAbortedError(2, 0)
+        report.receive = aborted
     ae.sub = report
+    if fault == 1:
+        ae.sub_fault = exceptions.AssociationRejectedError(1, 1, 3)
     asce = RecAssoc(ae)
     rq = dm.NActionRQMessage()
     rq.message_id = mid
@@ -289,13 +358,20 @@ def n_action_response(mid: int, h: int, fail: bool, ns: int, nf: int) -> bool:
     rq.requested_sop_instance_uid = sopclass.STORAGE_COMMITMENT_PUSH_MODEL_SOP_CLASS
     rq.action_type_id = 1
     rq.data_set = _commit_request(ns + nf)
-    sopclass.StorageCommitment()(asce, ctx_of(_cid(h), sop), rq)
+    try:
+        sopclass.StorageCommitment()(asce, ctx_of(_cid(h), sop), rq)
+    except exceptions.NetDICOMError:
+        if fault == 0 or fail:
+            return False
+    # the request is answered whatever happens to the report afterwards
     sent = asce.sent()
     ok = len(sent) == 1 and correlated(sent[0], _cid(h), 0x8130, mid, sop,
                                        str(sopclass.STORAGE_COMMITMENT_PUSH_MODEL_SOP_CLASS))
     ok = ok and sent[0].status == (0x0110 if fail else 0)
     rep = report.sent()
     if fail:
+        ok = ok and rep == []
+    elif fault == 1:
         ok = ok and rep == []
     else:
         ok = ok and len(rep) == 1 and rep[0].command_field == 0x0100 and rep[0].sop_class == sop \
